@@ -155,7 +155,21 @@ func scanLayout(f *ssa.Function, header ssa.Value, l *frameLayout, depth int) {
 			}
 		case *ssa.IndexAddr:
 			if isHdr(x.X) {
-				if k, ok := ConstInt(x.Index); ok {
+				// `_ = hdr[n-1]` is a bounds hint, not a field: an element address whose value is loaded and
+				// never used (and never stored to) says nothing about the layout
+				used := false
+				if x.Referrers() != nil {
+					for _, ref := range *x.Referrers() {
+						if u, ok := ref.(*ssa.UnOp); ok {
+							if u.Referrers() != nil && len(*u.Referrers()) > 0 {
+								used = true
+							}
+							continue
+						}
+						used = true
+					}
+				}
+				if k, ok := ConstInt(x.Index); ok && used {
 					l.typeIdx, l.found["type"], l.typePos = k, true, x.Pos()
 				}
 			}
